@@ -82,6 +82,25 @@ var c13cmp = []cmp.Option{
 func c13Compare(c *explore.Ctx, sig string, f, g *cff.Font, desc any) {
 	// FontInfo: a zero font matrix means the default
 	fi, gi := *f.FontInfo, *g.FontInfo
+	// matrix entries are small numbers: relative precision (nine significant digits), no absolute margin;
+	// an all-zero matrix means the default
+	fm, gm := fi.FontMatrix, gi.FontMatrix
+	if fm == (matrix.Matrix{}) {
+		fm = matrix.Matrix{0.001, 0, 0, 0.001, 0, 0}
+	}
+	for i := range fm {
+		if math.Abs(fm[i]-gm[i]) > 1e-8*math.Max(math.Abs(fm[i]), math.Abs(gm[i]))+1e-15 {
+			c.Fail("C13.fontinfo", sig+" / FontMatrix", "the font matrix %v comes back as %v (%v)", fi.FontMatrix, gi.FontMatrix, desc)
+			break
+		}
+	}
+	// (the same for the underline metrics, whose type the approximate comparison does not know)
+	for _, p := range [][2]float64{{float64(fi.UnderlinePosition), float64(gi.UnderlinePosition)}, {float64(fi.UnderlineThickness), float64(gi.UnderlineThickness)}} {
+		if math.Abs(p[0]-p[1]) > 1e-8*math.Max(math.Abs(p[0]), math.Abs(p[1]))+1e-15 {
+			c.Fail("C13.fontinfo", sig+" / underline", "underline metric %v comes back as %v (%v)", p[0], p[1], desc)
+		}
+	}
+	gi.UnderlinePosition, gi.UnderlineThickness = fi.UnderlinePosition, fi.UnderlineThickness
 	if d := cmp.Diff(&fi, &gi, c13cmp...); d != "" {
 		c.Fail("C13.fontinfo", sig+" / "+diffSig(d), "FontInfo differs after the round trip (%v):\n%s", desc, trimDiff(d))
 	}
@@ -773,7 +792,8 @@ func c13FontInfo(r *run.Run) {
 
 func c13Numbers(r *run.Run) {
 	ints := []int32{0, 107, 108, -107, -108, 1131, 1132, -1131, -1132, 32767, 32768, -32768, -32769, 1<<31 - 1, -1 << 31}
-	reals := []float64{0.5, 0.001, 0.039625, 1e-5, 123456789, 1.23456789e-20, -7.5e12, 0.1, -0.25, 3.0e-3, 1e10, 1e300, -2.5e-300, 3e-310, 5e-324}
+	// (1/1005, 1/992: a font matrix for 1005 or 992 units per em is close to the default 0.001 but not equal to it)
+	reals := []float64{0.5, 0.001, 0.039625, 1e-5, 123456789, 1.23456789e-20, -7.5e12, 0.1, -0.25, 3.0e-3, 1e10, 1e300, -2.5e-300, 3e-310, 5e-324, 1.0 / 1005, 1.0 / 992, 0.001000001}
 	unit := []float64{0.5, 0.001, 0.25, 1e-5, 0.123456789, 1, 0.0397} // BlueScale is clamped to [0,1] on reading
 	angles := []float64{0.5, -12.25, 89.999, -0.001, 7.123456789}
 	r.Explore(explore.Config{Name: "C13.numbers"},
